@@ -6,6 +6,7 @@ import (
 	"bufio"
 	"fmt"
 	"net/http"
+	"net/http/httptest"
 	rtime "time"
 
 	"github.com/cbeuw/Cloak/internal/client"
@@ -95,6 +96,15 @@ func init() {
 				if success != did {
 					rep.Violations = append(rep.Violations, vx.Violation{Clause: "rejected-request-changes-nothing", Sig: vx.Sig(c.Job, "rejected-request-changes-nothing"),
 						Msg: fmt.Sprintf("%s of a user through the admin session, the database operation taking %d s: the administrator was answered %d, and afterwards the user exists=%v", opName, delayS, resp.StatusCode, exists)})
+					rep.Exhaustive = false
+				}
+				// the API is reachable through the admin session only: nothing has been published on the process-wide
+				// default HTTP mux (which a debug listener, for one, would serve to anybody)
+				drec := httptest.NewRecorder()
+				http.DefaultServeMux.ServeHTTP(drec, httptest.NewRequest("GET", "/admin/users", nil))
+				if drec.Code != 404 {
+					rep.Violations = append(rep.Violations, vx.Violation{Clause: "api-only-through-admin-session", Sig: vx.Sig(c.Job, "api-only-through-admin-session"),
+						Msg: fmt.Sprintf("after an admin session was served, GET /admin/users on http.DefaultServeMux (no Cloak handshake at all) answers %d: %.80q", drec.Code, drec.Body.String())})
 					rep.Exhaustive = false
 				}
 				sesh.Close()
